@@ -259,4 +259,32 @@ def originalOf (c : Copies) (idx : Nat) : Nat :=
 /-- member number `k` of the family of `t`: `k = 0` the original, `k ≥ 1` its k-th copy -/
 def member (copies : List Nat) (t k : Nat) : Nat := if k = 0 then t else copies.getD t 0 + k - 1
 
+
+/-! ## cell level: folding the counters of the copies, pushing the state to the copies
+
+A subgrid is the list of its cells (local one-index order); `update_intensities` and
+`update_neutral_fractions` (src/DensitySubGrid.hpp ~1059-1098) loop over
+`tot_ncell = _number_of_cells[3] * _number_of_cells[0]` cells. -/
+
+/-- `_number_of_cells[3] * _number_of_cells[0]` -/
+def Layout.totNcell (L : Layout) : Nat := (L.my * L.mz) * L.mx
+
+/-- `update_intensities(copy)`: `for (i < tot_ncell) cells[i] += copy.cells[i]` (cells beyond `tot_ncell` untouched) -/
+def updateIntensities (L : Layout) (orig copy : List Nat) : List Nat :=
+  (List.range orig.length).map fun i =>
+    if i < L.totNcell then orig.getD i 0 + copy.getD i 0 else orig.getD i 0
+
+/-- `update_original_counters()` on the cell counters of all subgrids: every visit of the fold walk adds the
+copy's counters to its original's -/
+def foldCells (L : Layout) (c : Copies) (cells : List (List Nat)) : List (List Nat) :=
+  (foldVisits c).foldl (fun cs v => cs.set v.1 (updateIntensities L (cs.getD v.1 []) (cs.getD v.2 []))) cells
+
+/-- `update_neutral_fractions(original)` on one state field of a copy: `for (i < tot_ncell) cells[i] = original.cells[i]` -/
+def updateNeutralFractions (L : Layout) (copy orig : List Nat) : List Nat :=
+  (List.range copy.length).map fun i => if i < L.totNcell then orig.getD i 0 else copy.getD i 0
+
+/-- `update_copy_properties()`: the same walk, the state of the original is written into each copy -/
+def pushCells (L : Layout) (c : Copies) (cells : List (List Nat)) : List (List Nat) :=
+  (foldVisits c).foldl (fun cs v => cs.set v.2 (updateNeutralFractions L (cs.getD v.2 []) (cs.getD v.1 []))) cells
+
 end CMacVerif.SubgridLayout
